@@ -69,7 +69,7 @@ def main():
                     dig = "digest DIFFERS" not in a1.stdout
                     rep.append(f"replay:{a1.returncode}/{'same-digest' if dig else 'DIGEST-DIFFERS'}/clean-tree:{a2.returncode}")
                     if a1.returncode != 1 or not dig or a2.returncode != 0:
-                        replay_bad.append((name, path, a1.returncode, dig, a2.returncode))
+                        replay_bad.append((name, path, a1.returncode, dig, a2.returncode, a1.stdout[-400:], a2.stdout[-700:]))
                 verdicts.append((prop, r.returncode, classes + rep, round(time.time() - t0)))
             detected = any(v[1] == 1 for v in verdicts)
             harness = any(v[1] == 2 for v in verdicts)
